@@ -10,12 +10,13 @@ rows = subprocess.run(['python3', os.path.join(root, 'tools', 'seeded_table.py')
 text = f"""### Rounds 2 to {rounds[-1]} ({len(later)} more changes)
 
 Round 2 (`seeded/<id>-b`, one per property) gave each fresh sub-agent the property text and a one-line summary of the round-1
-change to avoid. Rounds 3 (`-c`, ten properties), 4 (`-d`, the other ten) and 5 (`-e`, the first ten again) additionally named
-clauses of the property that the earlier changes had not touched. Same isolation (scratch worktree under `/tmp`, nothing from
+change to avoid. Later rounds (`-c`, `-d`, `-e`, `-f`, `-g`: ten properties each, alternating between the two halves of the property
+list) additionally named clauses of the property that the earlier changes had not touched, and listed all earlier changes as taken. Same isolation (scratch worktree under `/tmp`, nothing from
 `/verif`), same confirmation (`tools/confirm_seeded.sh`: demo passes unchanged / fails patched / the 94 003-id suite passes
 patched; the result line is in each `meta.json`), same bookkeeping. All {len(metas)} kept changes are detected by the quick tier
-of their property (`tools/selfcheck.sh`, seed 0). {len(missed)} of these {len(later)} were missed when they arrived
-({', '.join(missed)}) and led to the strengthening named in the last column - the last column is therefore also the list of
+of their property (`tools/selfcheck.sh`, seed 0). {len(missed)} of these {len(later)}
+({', '.join(missed)}) were missed when they arrived - or, in three cases the column says so, caught only by a clause that the audit of the
+same session had added hours before - and led to the strengthening named in the last column - the last column is therefore also the list of
 blind spots the machinery had.
 
 | id | change (needs ...) | caught by (first clauses) | check strengthened? |
